@@ -5,7 +5,8 @@ from vlib import Case, hx
 
 HARNESS = "sim_driver"
 LEAN_MODULES = ["ViaProofs.C03"]
-REQUIRED_THEOREMS = []
+LEMMA_MODULES = ['ViaProofs.ConnLemmas']
+REQUIRED_THEOREMS = ['Via.C03_partial_write_started', 'Via.C03_partial_bytes_stable', 'Via.C03_overlap_is_refused']
 LEVEL = "proof"
 TRUSTED_BASE = S.SIM_TRUSTED
 ASSUMPTIONS = S.SIM_ASSUMPTIONS
@@ -24,6 +25,47 @@ def generate(tier, rng):
     cases += S.make_cases("c03", tier, rng, 350, 12000, force={"policy": "sync"})
     cases += S.make_cases("c03o", tier, rng, 80, 3000, force={"policy": "sync"}, avoid_overlap=False)
     cases += S.make_cases("c03r", tier, rng, 60, 2000, force={"policy": "router"})
+    # sequences of complete valid requests whose bytes are cut so that the read completing one request already carries
+    # the first bytes of the next (never its complete head, so no response overlaps a write in flight)
+    for i in range(250 if tier == "quick" else 8000):
+        line, o = gen_sim.server_line(rng, {"policy": "sync", "resp": "fixed", "filter": "all", "autodisc": 0, "invh": 0, "conth": 0})
+        lines = [line, "accept"]
+        if o["flavour"] == "ssl":
+            lines.append("hs c0 ok")
+        nreq = rng.range(2, 5)
+        reqs = []
+        kinds = []
+        for j in range(nreq):
+            kind = rng.choice(["get", "post", "post", "chunked", "post0"])
+            kinds.append(kind)
+            if kind == "get":
+                reqs.append(gen_sim.req(target=b"/g%d" % j, headers=[gen_sim.HOST]))
+            elif kind == "post":
+                body = rng.bytes(rng.range(1, 30))
+                reqs.append(gen_sim.req(b"POST", b"/p%d" % j, headers=[gen_sim.HOST, (b"Content-Length", b"%d" % len(body))], body=body))
+            elif kind == "post0":
+                reqs.append(gen_sim.req(b"POST", b"/z%d" % j, headers=[gen_sim.HOST, (b"Content-Length", b"0")]))
+            else:
+                reqs.append(gen_sim.req(b"PUT", b"/c%d" % j, headers=[gen_sim.HOST, (b"Transfer-Encoding", b"chunked")],
+                                        chunks=[rng.bytes(rng.range(1, 9)) for _ in range(rng.range(0, 2))]))
+        carry = b""
+        for j, data in enumerate(reqs):
+            data = carry + data
+            carry = b""
+            steal = 0
+            if j + 1 < len(reqs) and rng.chance(2, 3) and kinds[j] != "get":
+                steal = rng.range(1, 12)          # bytes of the next request line, never the complete head
+                data += reqs[j + 1][:steal]
+                reqs[j + 1] = reqs[j + 1][steal:]
+            parts = gen_sim.split_reads(rng, data)
+            # a body-less first part followed by further bytes in the same read is the 411 known finding (C01-KF1):
+            # keep the stolen bytes only when the request has a body or explicit length
+            for part in parts:
+                lines.append("read c0 " + hx(part))
+                lines.append("wdone c0")
+        lines.append("state")
+        cases.append(Case("c03-seq-%d" % i, lines, {"opts": o, "complete": True, "expect_requests": nreq,
+                                                    "tags": ["sequence", o["flavour"]]}))
     return cases
 
 
@@ -63,7 +105,16 @@ def classify(case, fail, il, findings):
 
 
 def oracle(case, out):
-    return S.oracle_c03(case, out)
+    f = S.oracle_c03(case, out)
+    if f:
+        return f
+    n = case.meta.get("expect_requests")
+    if n is not None and not case.meta.get("kf"):
+        got = sum(1 for l in out if l.startswith("ev request "))
+        wires = sum(1 for l in out if l.startswith("io wire ") and "485454502f312e3120323030" in l)
+        if got != n or wires != n:
+            return "%d complete valid requests were sent one after the other, %d were delivered and %d were answered with 200" % (n, got, wires)
+    return None
 
 
 def nontrivial(case, out):
